@@ -55,7 +55,9 @@ def build_all(n, tmp):
   path = os.path.join(tmp, f'd{n}.sqlite')
   if not os.path.exists(path):
     with sqfd.SQLiteFederatedDataBuilder(path) as b:
-      b.add_many(sorted(t.items()))
+      # rows in an order that is neither sorted nor reverse sorted: nothing may rely on the file's row order
+      items = sorted(t.items())
+      b.add_many(items[1::2] + items[0::2][::-1])
   sq = sqfd.SQLiteFederatedData.new(path)
   sub = fd.SubsetFederatedData(sqfd.SQLiteFederatedData.new(path), list(t)) if True else None
   return t, {'mem': mem, 'sqlite': sq, 'subset': sub}
